@@ -61,10 +61,27 @@ Fixpoint find_member (m : option nsmap) (value : str) (values : list str) (i : n
   | (_, real) :: r => if enum_match m value values real then Some i else find_member m value values (S i) r
   end.
 
-(* EnumConverter.deserialize(value: str, data_type=E, ns_map=m): index of the member *)
+(* the exact-match passes (repo fix 64a4ace): a str member equal to the literal *)
+Fixpoint find_exact (v : str) (i : nat) (d : enum_def) : option nat :=
+  match d with
+  | [] => None
+  | (_, EvAtom (AStr r)) :: t => if str_eqb r v then Some i else find_exact v (S i) t
+  | _ :: t => find_exact v (S i) t
+  end.
+
+(* EnumConverter.deserialize(value: str, data_type=E, ns_map=m): index of the member.
+   First a str member equal to the text as given, then one equal to the stripped
+   text, then the per-member match on the stripped text and its tokens *)
 Definition enum_deser (m : option nsmap) (d : enum_def) (s : str) : option nat :=
-  let value := py_strip s in
-  find_member m value (split_ws py_isspace value) 0 d.
+  match find_exact s 0 d with
+  | Some i => Some i
+  | None =>
+      let value := py_strip s in
+      match find_exact value 0 d with
+      | Some i => Some i
+      | None => find_member m value (split_ws py_isspace value) 0 d
+      end
+  end.
 
 (* ConverterFactory.serialize of a member's value.  A tuple value has no
    registered converter (ConverterError); a list is joined with spaces; the
